@@ -191,7 +191,7 @@ def replay_h_slice_dtypes(k0, k1, s0, s1, item, via_state, pandas_nulls, given):
             flat_file.build_dict(fn, [10, 20, 30], [j % 3 for j in range(5 - k)], 2, nulls=nulls, optional=True,
                                  stats_null_count={0: "absent", 1: None, 2: k}[s])
             fns.append(fn)
-        kw = dict(dtypes={"x": np.dtype("float64")}) if given else {}
+        kw = dict(dtypes={"x": np.dtype("float32")}) if given else {}
         pf = fastparquet.ParquetFile(fns, pandas_nulls=pandas_nulls, **kw)
         parent = str(pf.dtypes["x"])
         sub = pf[[0, 1, slice(0, 2)][item]]
